@@ -67,9 +67,14 @@ CHECKS = {
                      'any position, the aggregates equal the fold over exactly the addressed values (mean by cross-multiplication), MIN <= AVERAGE <= MAX, SUM is additive over splits, results are invariant '
                      'under argument order and content permutation; SUMPRODUCT = sum of element-wise products, #VALUE! on shape mismatch.',
                 note=XH_NOTE + ' Numeric-looking text and booleans inside ranges are outside the statement; MIN/MAX orderings limit the rectangle size (n! paths).'),
+    'C15': dict(engine='XH', technique='symbolic execution (CrossHair+z3) of COUNTIF/COUNTIFS/MATCH/VLOOKUP/CHOOSE through compiled formulas over columns/tables with symbolic cells, vs linear scans',
+                text='Bounded symbolic model checking: COUNTIF for each of the 7 criterion prefixes with numeric operands -3..3 (forked, negative included) and text operands, over columns of ALL ints '
+                     'with a text cell at any position; COUNTIFS with two criteria; MATCH exact (first position, #N/A) and approximate (last position <= key, beyond the last element); VLOOKUP exact over a '
+                     '3x3 table with duplicate keys and every column index 0..4; CHOOSE with indices -2..5 and fractional indices.',
+                note=XH_NOTE + ' Criterion operands and text cell contents are forked over small sets (the criteria regex on a symbolic string does not finish); SUMIF/SUMIFS are skipped because the installed pandas lacks DataFrame.applymap (the statement excludes them in that case).'),
 }
 NA = {
     'C12': 'persist/restore is ten lines around jsonpickle -> json (C encoder) -> gzip/file I/O; no repo-side kernel a solver can quantify over (symbolic values are realised or pickled as proxy objects at the codec boundary)',
 }
-for _p in ['C08', 'C11', 'C15', 'C16', 'C18', 'C19', 'C20']:
+for _p in ['C08', 'C11', 'C16', 'C18', 'C19', 'C20']:
     NA.setdefault(_p, 'check not built yet in this revision (planned: see DESIGN.md §4)')
